@@ -631,4 +631,10 @@ theorem drawLines_congr (m m' : TextMode) (h1 : m.hard = m'.hard) (h2 : m.ell = 
       | error p => rfl
       | ok s' => simp [ih]
 
+/-! ### Button -/
+
+/-- the style `Button.Draw` selects: mouseDown, else hover, else focused, else default -/
+def buttonStyle (md hv fc : Bool) (a b c d : Nat) : Nat := if md then a else if hv then b else if fc then c else d
+
+
 end VaxisModel.Lemmas.SurfExec
